@@ -65,15 +65,13 @@ JudgeWatcher(terms, tok, mons, e) ==
                           THEN "terminal-order" ELSE "ok",
              mons |-> [ms EXCEPT ![km].mon = j.mon], ext |-> "ok"]
     [] e.op = "notarget" ->
-         \* dropping logs repr(burst); a burst of a data type the library has no payload class for (idle, MBC, USBD - outside
-         \* the alphabet of the C08 statement) has no payload object and its repr raises: recorded as an observation
-         \* outside the listed properties (ext), not as a verdict
-         [why |-> IF e.out.outcome # "ok" /\ e.b.cls # "OTHER" THEN "NeverFails"
+         \* dropping logs repr(burst).  Every parseable burst is covered, also those of data types the library has no payload
+         \* class for (idle, MBC, USBD - class "OTHER"): their rendering used to raise, which had first been recorded as an
+         \* observation outside the listed properties; the statement says "every sequence of parseable bursts ... never fails"
+         [why |-> IF e.out.outcome # "ok" THEN "NeverFails"
                   ELSE IF e.out.ev # <<>> \/ e.post.terms # terms THEN "BurstWithoutTargetIsDropped" ELSE "ok",
           dr |-> IF e.post.tok # tok THEN "token" ELSE "ok", mons |-> mons,
-          ext |-> IF e.out.outcome # "ok" /\ e.b.cls = "OTHER"
-                  THEN "TransmissionWatcher.process_burst raises (" \o e.out.outcome \o ") when it drops a target-less burst of a data type without payload class (idle, MBC, USBD): repr(burst) fails"
-                  ELSE "ok"]
+          ext |-> "ok"]
     [] OTHER ->          \* endall
          LET r == WEndAll(terms, tok)
              same == Len(e.post.terms) = Len(terms) /\ \A q \in 1..Len(terms) : e.post.terms[q].id = terms[q].id
